@@ -315,3 +315,24 @@ package kv
 //@ # src/tgt: source and target interval, d: start of the source family minus start of the target family, s: source slot,
 //@ # b: base slot (contains d), t: the target slot that contains the timestamp of s (both as proved for the real methods)
 //@ lemma rollup_placement_rule_agrees_with_the_slot_mapping prop C04: all(src, "int", all(tgt, "int", all(d, "int", all(s, "int", all(b, "int", all(t, "int", (src >= 1000 && tgt >= 300000 && tgt <= 3600000 && tgt >= src && d >= 0 && d <= 86400000 && d % 3600000 == 0 && s >= 0 && s * src < 3600000 && b * tgt <= d && d < b * tgt + tgt && t * tgt <= d + s * src && d + s * src < t * tgt + tgt) ==> b + s / (tgt / src) == t))))))
+
+//@ # ---- order of the three commits of a rollup (C04 "exactly once, also across a crash and restart"): the target first
+//@ # records the source file as a reference together with the rolled-up output (doRollupWork), then the source commits the
+//@ # removal of its rollup marks, and only then the target drops the reference. The reference is the only thing that makes
+//@ # a repeated rollup skip a file that is already merged in: dropped before the source has committed, a crash in between
+//@ # leaves the file marked in the source and unknown to the target - it is rolled up a second time. Thin contract: the
+//@ # goroutine body of family.rollup; only this ordering is claimed -------------------------------------------------
+//@ ghost field family.sourceCommitted bool
+//@ stable family.sourceCommitted
+//@ func Family.cleanReferenceFiles
+//@   norefine
+//@   requires[a_reference_is_dropped_only_after_the_source_has_committed_the_removal_of_its_rollup_marks] typeis(sourceFamily, "*family") ==> cast(sourceFamily, "*family").sourceCommitted
+//@   modifies *
+//@ end
+//@ func family.rollup$1
+//@   prop C04
+//@   focus a_reference_is_dropped_only_after_the_source_has_committed_the_removal_of_its_rollup_marks
+//@   ghost_entry f.sourceCommitted = false
+//@   ghost_after family.commitEditLog f.sourceCommitted = true
+//@   modifies *
+//@ end
